@@ -1,1 +1,309 @@
-/- C12 — theorems (placeholder until the property is built). -/
+/-
+  C12 — Confidence bands follow their definitions, bracket the winner, only add bands.
+
+  Theorems about the executable model `Model/Confidence.lean` (which follows the algorithms of
+  pandora/cost_volume_confidence/*.py and pandora/interval_tools.py) against the declarative
+  specification `Confidence.Spec`, for ALL inputs: any volume size, any number of disparities, any eta
+  grid, any threshold, any image size, any list of steps.  The band stems, the band prefix and the
+  indicator rule are the ones the translator regenerated from the source text (`Generated/Confidence`).
+
+  Lemma files: Lemmas/C12Layout (flat repeat/reshape layout, ambiguity), C12Risk, C12Bounds, C12Regul,
+  C12Frame (bands, names, normalisation), C12Std.
+
+  Conventions of the specification (DESIGN_NOTES/C12.md): "best" = smallest finite cost for a min measure,
+  largest for a max measure; a NaN cost counts as within eta of the best; exact rational arithmetic
+  (floating point is modelled, not verified).
+
+  Findings established here as counterexample theorems:
+    F10  `ambiguity_max_counterexample`        ambiguity/risk take the minimum as best on a max measure
+    F11  `ambiguity_normalised_counterexample` a constant clipped ambiguity map normalises to NaN
+    F11b `indicator_two_dots_counterexample`   a step name with two dots gets no suffix
+-/
+import PandoraModel.Lemmas.C12Fix
+import PandoraModel.Generated.Confidence
+
+namespace Pandora.C12
+open Pandora Pandora.Confidence
+
+/-! ### 0. Tie to the source: band stems, prefix and indicator rule regenerated from the source text -/
+
+def methodKey : Method → Name
+  | .ambiguity .. => "ambiguity".toList
+  | .risk .. => "risk".toList
+  | .intervalBounds .. => "interval_bounds".toList
+  | .stdIntensity => "std_intensity".toList
+
+/-- the band stems of the specification are the ones the source allocates, in the same order -/
+theorem stems_from_source :
+    Generated.Confidence.stems =
+      [(methodKey (.ambiguity [] false), Spec.stems (.ambiguity [] false)),
+       (methodKey (.risk []), Spec.stems (.risk [])),
+       (methodKey (.intervalBounds 0 none), Spec.stems (.intervalBounds 0 none)),
+       (methodKey .stdIntensity, Spec.stems .stdIntensity)] := by decide
+
+theorem prefix_from_source : Generated.Confidence.bandPrefix = confPrefix := by decide
+
+/-- the rule found in `cost_volume_confidence_run` is the one `indicatorOf` implements:
+    `indicator = ""; if len(step.split(".")) == 2: indicator = "." + step.split(".")[1]`
+    — or the same with `split(".", 1)`, which is the repair proposed in proposed_fixes/C12-indicator-suffix.diff
+    (it differs only on names with two dots or more, where it yields the specification's suffix; the
+    correspondence accepts exactly these two behaviours, and `indicatorOf` is to be replaced by
+    `Spec.suffixOf` once the repair is merged) -/
+theorem indicator_rule_from_source :
+    Generated.Confidence.indicatorRule = ⟨['.'], none, 2, ['.'], 1, []⟩
+    ∨ Generated.Confidence.indicatorRule = ⟨['.'], some 1, 2, ['.'], 1, []⟩ := by decide
+
+/-! ### 1. Well-formedness (explicit, decidable) -/
+
+/-- the quantifier of the property: the cost volume holds at least two distinct finite costs -/
+def WFVol (v : Volume) : Bool :=
+  match globalMin v, globalMax v with
+  | some mn, some mx => mn != mx
+  | _, _ => false
+
+/-- an eta grid as `np.arange(0, eta_max, eta_step)` produces for `0 < eta_max`, `0 < eta_step`:
+    non-empty, non-negative samples -/
+def WFEtas (etas : List Rat) : Bool := !etas.isEmpty && etas.all (fun e => decide (0 ≤ e))
+
+theorem wfVol_iff (v : Volume) : WFVol v = true ↔ ∃ mn mx, globalMin v = some mn ∧ globalMax v = some mx ∧ mn < mx := by
+  unfold WFVol
+  cases hmn : globalMin v with
+  | none => simp
+  | some mn =>
+    cases hmx : globalMax v with
+    | none => simp
+    | some mx =>
+      have hle : mn ≤ mx := by
+        unfold globalMin at hmn; unfold globalMax at hmx
+        exact le_trans (lmin_le _ _ hmn mn (lmin_mem _ _ hmn)) (lmax_ge _ _ hmx mn (lmin_mem _ _ hmn))
+      simp only [bne_iff_ne, ne_eq, Option.some.injEq, exists_and_left, exists_eq_left']
+      constructor
+      · intro h; exact lt_of_le_of_ne hle h
+      · intro h; exact ne_of_lt h
+
+theorem wfEtas_iff (etas : List Rat) : WFEtas etas = true ↔ etas ≠ [] ∧ ∀ e ∈ etas, 0 ≤ e := by
+  unfold WFEtas
+  cases etas <;> simp
+
+theorem arange_wf (stop step : Rat) (h1 : 0 < stop) (h2 : 0 < step) : WFEtas (arange 0 stop step) = true := by
+  rw [wfEtas_iff]
+  unfold arange
+  simp only [not_le.2 h2, if_false]
+  have hpos : 0 < (stop - 0) / step := by simp; exact div_pos h1 h2
+  have hceil : 0 < ((stop - 0) / step).ceil := by
+    have h : (0 : Rat) < ((((stop - 0) / step).ceil : Int) : Rat) := lt_of_lt_of_le hpos Rat.le_ceil
+    exact_mod_cast h
+  constructor
+  · intro h
+    have hlen := congrArg List.length h
+    simp only [List.length_map, List.length_range, List.length_nil] at hlen
+    omega
+  · intro e he
+    obtain ⟨i, _, rfl⟩ := List.mem_map.1 he
+    have : (0 : Rat) ≤ (i : Rat) := by exact_mod_cast Nat.zero_le i
+    have := mul_nonneg this (le_of_lt h2)
+    linarith
+
+/-! ### 2. Ambiguity -/
+
+/-- **ambiguity_def**: for every cost volume with two distinct finite costs and every eta grid,
+    `compute_ambiguity` returns, at every pixel, the number of (eta, disparity) pairs whose normalised cost
+    is within eta of the pixel's smallest cost (NaN costs counted) — `min` measure -/
+theorem ambiguity_def (etas : List Rat) (v : Volume) (h : WFVol v = true) :
+    ∃ mn mx, globalMin v = some mn ∧ globalMax v = some mx ∧
+      computeAmbiguity etas v = some (mapVolume (Spec.ambCount false mn mx etas) v)
+      ∧ computeSampled etas v = some (mapVolume (fun c => etas.map (Spec.ambAt false mn mx c)) v) := by
+  obtain ⟨mn, mx, hmn, hmx, hlt⟩ := (wfVol_iff v).1 h
+  refine ⟨mn, mx, hmn, hmx, ?_, ?_⟩
+  · unfold computeAmbiguity
+    rw [hmn, hmx]
+    simp only [mapVolume]
+    congr 1
+    apply List.map_congr_left; intro row _
+    apply List.map_congr_left; intro c _
+    exact pixelAmbiguity_spec mn mx etas c (ne_of_gt hlt)
+  · unfold computeSampled
+    rw [hmn, hmx]
+    simp only [mapVolume]
+    congr 1
+    apply List.map_congr_left; intro row _
+    apply List.map_congr_left; intro c _
+    exact pixelSampled_spec mn mx etas c (ne_of_gt hlt)
+
+theorem mem_chunks {α} (k : Nat) : ∀ (n : Nat) (l : List α) (row : List α), row ∈ chunks k n l → ∀ x ∈ row, x ∈ l := by
+  intro n
+  induction n with
+  | zero => intro l row h; simp [chunks] at h
+  | succ n ih =>
+    intro l row h x hx
+    rw [chunks, List.mem_cons] at h
+    rcases h with rfl | h
+    · exact List.mem_of_mem_take hx
+    · exact List.mem_of_mem_drop (ih _ _ h x hx)
+
+/-- **ambiguity_normalised_range**: when the percentile-clipped ambiguity map takes two distinct values,
+    every cell of the normalised confidence band is a finite number of `[0, 1]` -/
+theorem ambiguity_normalised_range (etas : List Rat) (v : Volume) (amb : Grid Nat) (band : Grid Val)
+    (hamb : computeAmbiguity etas v = some amb)
+    (hband : ambiguityBand etas true 1 v = some band)
+    (hd : ∃ x ∈ clipped 1 (amb.flatten.map (fun (n : Nat) => (n : Rat))),
+          ∃ y ∈ clipped 1 (amb.flatten.map (fun (n : Nat) => (n : Rat))), x ≠ y) :
+    ∀ row ∈ band, ∀ x ∈ row, Spec.inUnit x = true := by
+  unfold ambiguityBand at hband
+  rw [hamb] at hband
+  simp only [if_true, Option.some.injEq] at hband
+  subst hband
+  intro row hrow x hx
+  have hmem := mem_chunks _ _ _ row hrow x hx
+  obtain ⟨y, hy, rfl⟩ := List.mem_map.1 hmem
+  exact (normalize_unit 1 _ hd y hy).2
+
+/-! ### 3. Risk -/
+
+/-- **risk_def** and **risk_order**: `compute_risk` returns at every pixel the eta-means of the disparity
+    spread and of `1 + spread − count` (NaN for a pixel without finite cost), and `0 ≤ risk_min ≤ risk_max` -/
+theorem risk_def (etas : List Rat) (v : Volume) (h : WFVol v = true) (he : WFEtas etas = true) :
+    ∃ mn mx, globalMin v = some mn ∧ globalMax v = some mx ∧
+      computeRisk etas v = some (mapVolume (fun c => riskVals (Spec.risk false mn mx etas c)) v) := by
+  obtain ⟨mn, mx, hmn, hmx, hlt⟩ := (wfVol_iff v).1 h
+  obtain ⟨hne, hpos⟩ := (wfEtas_iff etas).1 he
+  refine ⟨mn, mx, hmn, hmx, ?_⟩
+  unfold computeRisk
+  rw [hmn, hmx]
+  simp only [mapVolume]
+  congr 1
+  apply List.map_congr_left; intro row _
+  apply List.map_congr_left; intro c _
+  exact pixelRisk_spec mn mx etas c (ne_of_gt hlt) hpos hne
+
+theorem risk_order (etas : List Rat) (v : Volume) (h : WFVol v = true) (he : WFEtas etas = true)
+    (g : Grid (Val × Val)) (hg : computeRisk etas v = some g) :
+    ∀ row ∈ g, ∀ p ∈ row, (p = (Val.nan, Val.nan)) ∨ (∃ a b, p = (Val.num a, Val.num b) ∧ 0 ≤ b ∧ b ≤ a) := by
+  obtain ⟨mn, mx, _, _, hr⟩ := risk_def etas v h he
+  obtain ⟨_, hpos⟩ := (wfEtas_iff etas).1 he
+  rw [hr] at hg
+  simp only [Option.some.injEq] at hg
+  subst hg
+  intro row hrow p hp
+  simp only [mapVolume, List.mem_map] at hrow
+  obtain ⟨vrow, _, rfl⟩ := hrow
+  obtain ⟨c, _, rfl⟩ := List.mem_map.1 hp
+  cases hs : Spec.risk false mn mx etas c with
+  | none => left; rfl
+  | some ab =>
+    obtain ⟨a, b⟩ := ab
+    right
+    exact ⟨a, b, rfl, risk_order_spec mn mx etas c hpos a b hs⟩
+
+/-! ### 4. Interval bounds -/
+
+/-- **bounds_def**: at every pixel `(inf, sup)` are the disparities of the first / last index whose
+    possibility `1 − |c − best|/(max − min)` reaches the threshold, widened by one sample at a best;
+    both measure types -/
+theorem bounds_def (isMax : Bool) (thr : Rat) (disp : List Rat) (v : Volume) (h : WFVol v = true) (hthr : thr ≤ 1) :
+    ∃ mn mx g, globalMin v = some mn ∧ globalMax v = some mx ∧ computeBounds isMax thr disp v = some g ∧
+      g = mapVolume (pixelBounds mn mx (typeFactor isMax) thr disp) v ∧
+      ∀ row ∈ v, ∀ c ∈ row,
+        Spec.boundsOk isMax mn mx thr disp c (pixelBounds mn mx (typeFactor isMax) thr disp c).1
+          (pixelBounds mn mx (typeFactor isMax) thr disp c).2 = true := by
+  obtain ⟨mn, mx, hmn, hmx, hlt⟩ := (wfVol_iff v).1 h
+  refine ⟨mn, mx, _, hmn, hmx, ?_, rfl, ?_⟩
+  · unfold computeBounds; rw [hmn, hmx]
+  · intro row _ c _
+    exact pixelBounds_def isMax mn mx thr disp c hlt hthr
+
+/-- **bounds_bracket_wta**: for every pixel that has a finite cost, the winner-takes-all disparity of the
+    later disparity step lies in `[inf, sup]` — ascending disparity coordinate, threshold `≤ 1` -/
+theorem bounds_bracket_wta (isMax : Bool) (thr : Rat) (disp : List Rat) (v : Volume) (h : WFVol v = true)
+    (hthr : thr ≤ 1) (hdisp : disp.Pairwise (· ≤ ·)) :
+    ∃ mn mx, globalMin v = some mn ∧ globalMax v = some mx ∧
+      ∀ row ∈ v, ∀ c ∈ row, disp.length = c.length → ∀ w, wtaIdx isMax c = some w →
+        Spec.bracket (pixelBounds mn mx (typeFactor isMax) thr disp c).1
+          (pixelBounds mn mx (typeFactor isMax) thr disp c).2 (disp.getD w 0) = true := by
+  obtain ⟨mn, mx, hmn, hmx, hlt⟩ := (wfVol_iff v).1 h
+  refine ⟨mn, mx, hmn, hmx, ?_⟩
+  intro row _ c _ hlen w hw
+  obtain ⟨hwlt, b, hb, hcw⟩ := wtaIdx_best isMax c w hw
+  exact pixelBounds_bracket isMax mn mx thr disp c hlt hthr hdisp hlen b hb w hwlt hcw
+
+/-! ### 5. Non-vacuity: concrete inputs satisfying the hypotheses, with NaN holes, ties, an all-NaN pixel -/
+
+def exVol : Volume :=
+  [[[.nan, .num 1, .num 3], [.num 4, .num 1, .num 1], [.nan, .nan, .nan]],
+   [[.num 5, .nan, .num 0], [.num 2, .num 2, .num 2], [.num 0, .num 8, .num 0]]]
+
+example : WFVol exVol = true := by decide +kernel
+example : WFEtas (arange 0 (3/4) (1/4)) = true := by decide +kernel
+example : arange 0 (3/4) (1/4) = [0, 1/4, 1/2] := by decide +kernel
+example : computeAmbiguity [0, 1/4, 1/2] exVol = some [[8, 7, 9], [6, 9, 6]] := by decide +kernel
+example : computeRisk [0, 1/2] exVol
+    = some [[(.num (3/2), .num 0), (.num (3/2), .num 0), (.nan, .nan)],
+            [(.num 1, .num 0), (.num 2, .num 0), (.num 2, .num 1)]] := by decide +kernel
+example : computeBounds false (3/4) [-1, 0, 1] exVol
+    = some [[(.num (-1), .num 1), (.num (-1), .num 1), (.nan, .nan)],
+            [(.num 0, .num 1), (.num (-1), .num 1), (.num (-1), .num 1)]] := by decide +kernel
+example : wtaMap false [-1, 0, 1] exVol = [[some 0, some 0, none], [some 1, some (-1), some (-1)]] := by decide +kernel
+example : ([-1, 0, 1] : List Rat).Pairwise (· ≤ ·) := by decide +kernel
+
+/-! ### 6. Regularisation, bands, std_intensity: statements proved in the lemma files, instantiated
+
+  * `intervalRegularization_widens` (Lemmas/C12Regul): for any bound grids, ambiguity map, threshold, kernel
+    size and depth, with quantile 1 every finite `inf` stays finite and does not increase, every finite `sup`
+    stays finite and does not decrease.
+  * `runSteps_frame`, `later_disparity_same` (Lemmas/C12Frame): any list of steps leaves the cost volume and the
+    later winner-takes-all map unchanged and appends exactly the bands `steps.flatMap modelNames` after the
+    existing ones; `indicatorOf_eq_suffix`: the suffix is the part of the step name from its first dot when the
+    name has at most one dot (`indicator_two_dots_counterexample` otherwise).
+  * `stdBandSq_spec` (Lemmas/C12Std): the std_intensity band squared is the population variance of the centred
+    window, NaN on the frame.
+-/
+
+/-- **existing_bands_same / bands_appended_named** in the form used by the check: after any list of steps the
+    old bands are a prefix of the new list, in place and unchanged -/
+theorem existing_bands_prefix (steps : List Step) (st st' : CState) (h : runSteps st steps = some st') :
+    (st.cvBands.getD []) <+: (st'.cvBands.getD []) := by
+  obtain ⟨_, _, _, _, _, new, _, hb⟩ := runSteps_frame steps st st' h
+  exact ⟨new, hb.symm⟩
+
+/-- the names appended by well-formed step names (at most one dot each) are the specification's -/
+theorem names_as_specified (s : Step) (kind sfx : List Char) (hk : ∀ c ∈ kind, c ≠ '.') (hs : ∀ c ∈ sfx, c ≠ '.')
+    (hname : s.name = kind ++ '.' :: sfx ∨ s.name = kind) : modelNames s = Spec.expectedNames s := by
+  unfold modelNames Spec.expectedNames
+  have := indicatorOf_eq_suffix kind sfx hk hs
+  rcases hname with h | h
+  · rw [h, this.1]; simp [List.append_assoc]
+  · rw [h, this.2]; simp [List.append_assoc]
+
+def exInf : Grid Val := [[.num 0, .num (-1), .num 2, .nan], [.num 1, .num 1, .num 0, .num 3]]
+def exSup : Grid Val := [[.num 1, .num 2, .num 2, .nan], [.num 1, .num 4, .num 2, .num 3]]
+def exAmb : Grid Val := [[.num (1/8), .num (1/4), .num 1, .num 1], [.num 1, .num (1/2), .num (1/8), .num 1]]
+
+example : borders (5/8) 1 exAmb = ([(0, 0), (1, 1)], [(0, 1), (1, 2)]) := by decide +kernel
+example : intervalRegularization exInf exSup exAmb (5/8) 1 1 1
+    = ([[.num (-1), .num (-1), .num 2, .nan], [.num 1, .num (-1), .num (-1), .num 3]],
+       [[.num 4, .num 4, .num 2, .nan], [.num 1, .num 4, .num 4, .num 3]]) := by decide +kernel
+example : Spec.widened exInf exSup (intervalRegularization exInf exSup exAmb (5/8) 1 1 1).1
+    (intervalRegularization exInf exSup exAmb (5/8) 1 1 1).2 = true := by decide +kernel
+
+def exState : CState :=
+  { cost := exVol, isMax := false, disp := [-1, 0, 1], img := [[1, 2, 3], [4, 6, 5]], window := 1,
+    cvBands := none, dispDS := .ds none }
+
+def exSteps : List Step :=
+  [⟨"cost_volume_confidence.amb".toList, .ambiguity [0, 1/2] false⟩,
+   ⟨"cost_volume_confidence".toList, .risk [0, 1/2]⟩,
+   ⟨"cost_volume_confidence.std".toList, .stdIntensity⟩,
+   ⟨"cost_volume_confidence.b".toList, .intervalBounds (3/4) none⟩]
+
+example : ((runSteps exState exSteps).map (fun st => (st.cvBands.getD []).map (fun b => String.ofList b.name)))
+    = some ["confidence_from_ambiguity.amb", "confidence_from_risk_max", "confidence_from_risk_min",
+            "confidence_from_intensity_std.std", "confidence_from_interval_bounds_inf.b",
+            "confidence_from_interval_bounds_sup.b"] := by decide +kernel
+example : exSteps.flatMap modelNames = exSteps.flatMap Spec.expectedNames := by decide +kernel
+
+example : stdBandSq 3 [[1, 2, 3, 4], [4, 6, 5, 0], [7, 8, 9, 1]]
+    = [[.nan, .nan, .nan, .nan], [.nan, .num (20/3), .num (680/81), .nan], [.nan, .nan, .nan, .nan]] := by
+  decide +kernel
+example : Spec.windowVar 3 [[1, 2, 3, 4], [4, 6, 5, 0], [7, 8, 9, 1]] 0 1 = 680/81 := by decide +kernel
+
+end Pandora.C12
